@@ -69,7 +69,7 @@ def G(w, h, sc, sr, maxseg=8, to=900):
                  bound="picture %dx%d superblocks, requested grid %dx%d" % (w, h, sc, sr),
                  what="segments partition the picture; row bounds bracket the row's segments; each segment's walk visits exactly its members")
 def queries(tier):
-    qs = [R(2, 1, 1, 2, 6), R(2, 2, 1, 2, 10), R(2, 2, 2, 2, 10), R(3, 2, 2, 2, 14), R(2, 3, 2, 3, 16),
+    qs = [R(1, 2, 1, 2, 8), R(1, 3, 1, 3, 10), R(2, 1, 1, 2, 6), R(2, 2, 1, 2, 10), R(2, 2, 2, 2, 10), R(3, 2, 2, 2, 14), R(2, 3, 2, 3, 16),
           G(9, 5, 4, 3), G(6, 4, 8, 8), G(7, 3, 2, 2), G(5, 2, 2, 4), G(1, 3, 1, 3)]
     if tier == "thorough":
         for (w, h) in [(3, 3)]:
